@@ -11,3 +11,20 @@ claim("C16", "exploration",
       "Every collection size in a contiguous range (0..130 quick, 0..600 thorough) plus the sizes around every multiple of the maximum block count, three key shapes, memory-only and flushed+evicted+reopened stores: Len and the multiset of keys delivered by VisitItemsAscendBlockEx (8 block manglers, both value modes) and VisitItemsRandom must be each key exactly once. Exhaustive in n over the stated range, which is where the block arithmetic can go wrong.",
       "Trusted: multiset comparison against the inserted key set. Block manglers are permutations.",
       "runtime monitoring: exact-cover (multiset) oracle over an exhaustive size range", "5/C16")
+
+claim("C04", "exploration",
+      "Per-handle models for the original and every open snapshot, completely re-read after EVERY step of histories that interleave original-side operations (mutations, flush, evict, collection replace/remove, Close, suspended readers) with snapshot-side ones (snapshot of snapshot, reads, FlushRevert, refused mutations, Close), plus complete enumeration of the 4! release orders of {3 snapshots, original} on varied base histories, with node-reuse forcing and the hook walk after each release. The file monitor rejects any write/truncate issued under a snapshot operation.",
+      "Trusted: per-handle reference models, hook walk (side-effect free), in-memory StoreFile. Snapshots older than a FlushRevert of the original are closed first.",
+      "runtime monitoring: per-handle model read-back after every step + release-order enumeration + structural reachability hook", "5/C04")
+claim("C10", "exploration",
+      "Two to three stores sharing the process-global free lists; after every step of every store: all freed nodes are forcibly reused with foreign data, then every open handle of every store is compared with its model, and the hook walk asserts directly that no node reachable from a live version is on a free list, zeroed or carries the reclaim mark of a version that may die first. The structural assertion turns 'silent until reuse' into an immediate verdict.",
+      "Trusted: hook walk + free-list dump (taken under the allocator's own locks), per-handle models. Suspended readers are blocked goroutines (no true parallelism here; that is C05).",
+      "runtime monitoring: invariant at hook (reachable vs freed/marked) + reuse-forced differential read-back", "5/C10")
+claim("C12", "exploration",
+      "Histories dense in SetCollection (new and existing names), RemoveCollection (incl. remove-then-recreate), GetCollection and mutations through the returned handles while nodes are cached, with flushes, re-opens and snapshots anywhere; names incl. empty, JSON-escaped, multi-byte and magic strings; custom comparators. Names, all handles and snapshots are checked after every step; durability only-at-Flush is checked by opening a second store on a copy of the file after each flush and at re-opens.",
+      "Trusted: model name map, reopen comparison, decoder. Names are valid UTF-8; a replacement comparator orders existing keys identically.",
+      "runtime monitoring: differential lock-step execution against a model of the collection map", "5/C12")
+claim("C15", "exploration",
+      "ItemAlloc/ItemAddRef/ItemDecRef wired to a mutex-protected online monitor following the documented protocol: never below zero, positive when handed out, positive while reachable from an open handle (hook walk after every step), zero for every item after the store, its snapshots and abandoned stores are closed in seed-chosen orders. Outstanding references are attributed to the API operation that acquired them, which makes distinct leaks distinguishable.",
+      "Trusted: the monitor's protocol model (alloc=1, app drops its ref after SetItem, releases lookups once). One recorded known finding (loads through a superseded version).",
+      "runtime monitoring: online reference-count monitor in the store callbacks + end-of-life conservation check", "5/C15")
